@@ -458,8 +458,43 @@ func (f *Frame) modTargetInto(env *SpecEnv, c Clause, ms *modSet) bool {
 }
 
 func (f *Frame) modClauseFull(fc *FuncContract, callee *ssa.Function, m scopedClause, ms *modSet) {
-	// Without evaluable owners we cannot name the component precisely: havoc everything.
-	ms.all = true
+	// The owner cannot be evaluated (loop-variant argument): havoc the whole
+	// components the clause can touch, determined from the static types.
+	var ptypes []types.Type
+	var pnames []string
+	if callee != nil {
+		for _, p := range callee.Params {
+			ptypes = append(ptypes, p.Type())
+			pnames = append(pnames, p.Name())
+		}
+	}
+	vars := map[string]SVal{}
+	for i, n := range pnames {
+		so := f.w.Sorts.SortOf(ptypes[i])
+		vars[n] = SVal{T: Term{"dummy!" + n, so}, Go: ptypes[i]}
+	}
+	off := len(pnames) - len(fc.Params)
+	if off >= 0 {
+		for i, p := range fc.Params {
+			if p.Name != "" {
+				so := f.w.Sorts.SortOf(ptypes[off+i])
+				vars[p.Name] = SVal{T: Term{"dummy!" + p.Name, so}, Go: ptypes[off+i]}
+			}
+		}
+	}
+	scratch := newModSet()
+	dummyHeap := &Heap{comps: map[string]Term{}, vc: f.vc}
+	env := &SpecEnv{W: f.w, Vars: vars, Heap: dummyHeap, Old: dummyHeap, Scope: m.scope, Side: f.vc}
+	if callee == nil || !f.modTargetInto(env, m.c, scratch) {
+		ms.all = true
+		return
+	}
+	for c, so := range scratch.sorts {
+		ms.addFull(c, so)
+	}
+	if scratch.all {
+		ms.all = true
+	}
 }
 
 func (f *Frame) havocLoop(li *loopInfo, st State) *Heap {
@@ -687,8 +722,14 @@ func (w *World) VerifyFunc(fn *ssa.Function) *VC {
 		if isPanic && (ec.noPanic || ec.pure) {
 			vc.Oblige(label, "nopanic", "", pc, False, "function must not panic")
 		}
-		// frame
-		f.frameObligation(label, ec, pre, heap, h, pc, isPanic)
+		// frame: one obligation per exit (cheaper than reasoning about the merged heap)
+		if len(exits) > 1 {
+			for _, e := range exits {
+				f.frameObligation(label, ec, pre, heap, e.Heap, e.PC, isPanic)
+			}
+		} else {
+			f.frameObligation(label, ec, pre, heap, h, pc, isPanic)
+		}
 	}
 	check(normals, false)
 	check(panics, true)
